@@ -149,4 +149,22 @@ Emit == phase = "done" =>
   PrintT(ToJson([occs |-> occs, hints |-> hints,
                  want |-> IF Winner(occs, hints) = None THEN 0 ELSE Winner(occs, hints).val,
                  wantcar |-> Winner(occs, hints).car]))
+
+---------------------------------------------------------------------------
+(* The page context (CSS Paged Media 3, 5.1): @page rules and their margin-box rules cascade like rules, with the      *)
+(* specificity of the page selector: (named page, :first / :blank, :left / :right); later wins among equals. A scenario  *)
+(* is an ordered pair of page selectors that both match the first page of a document whose body is on the named page    *)
+(* "n" (a first, right, non-blank page); each rule sets margin-top and the width of its @top-left box.                   *)
+PageSels == {"", ":first", ":right", "n", "n:first", "n:right", ":first:right", "n:first:right"}
+PageSpec(ps) == CASE ps = "" -> <<0, 0, 0>> [] ps = ":first" -> <<0, 1, 0>> [] ps = ":right" -> <<0, 0, 1>> [] ps = "n" -> <<1, 0, 0>>
+                  [] ps = "n:first" -> <<1, 1, 0>> [] ps = "n:right" -> <<1, 0, 1>> [] ps = ":first:right" -> <<0, 1, 1>> [] OTHER -> <<1, 1, 1>>
+SpecLess(a, b) == a[1] < b[1] \/ (a[1] = b[1] /\ (a[2] < b[2] \/ (a[2] = b[2] /\ a[3] < b[3])))
+\* 1 or 2: which of the two rules gives the page (and its margin box) its value
+PageWinner(p, q) == IF SpecLess(PageSpec(q), PageSpec(p)) THEN 1 ELSE 2
+PageInit == /\ \E p \in PageSels, q \in PageSels : occs = <<p, q>>
+            /\ hints = FALSE /\ todo = <<>> /\ slot = None /\ phase = "page"
+PageStutter == UNCHANGED vars
+\* specificity is a strict weak order: exactly one of the two wins in either order unless they are equally specific
+PageOrderLaw == phase = "page" => (PageSpec(occs[1]) = PageSpec(occs[2]) \/ PageWinner(occs[1], occs[2]) # PageWinner(occs[2], occs[1]))
+EmitPage == phase = "page" => PrintT(ToJson([mode |-> "page", sels |-> occs, winner |-> PageWinner(occs[1], occs[2])]))
 =============================================================================
